@@ -139,6 +139,17 @@ Example C35_ex_family :
   end.
 Proof. vm_compute. reflexivity. Qed.
 
+(* SetSessionTicketKeys overrides EVERY other key source (user-set SessionTicketKey field, automatically rotated keys,
+   an earlier list): c is an arbitrary Config state; afterwards ticketKeys returns exactly the keys TicketKeyFromBytes
+   derives from the new list, on this and on every later call. *)
+Theorem C35_set_keys_overrides : forall sha512 c now b bs c1,
+  c_disabled c = false -> set_session_ticket_keys sha512 c now (b :: bs) = Ok c1 ->
+  forall now1 rnd1, (bytes_eqb (c_stk c) zero32 = false \/ (32 <= length rnd1)%nat) ->
+  exists c2 rnd2, ticket_keys sha512 c1 now1 rnd1 = Ok (map (ticket_key_from_bytes sha512) (b :: bs), c2, rnd2) /\
+    forall now2 rnd3, exists c3, ticket_keys sha512 c2 now2 rnd3 = Ok (map (ticket_key_from_bytes sha512) (b :: bs), c3, rnd3).
+Proof. exact set_keys_overrides. Qed.
+Print Assumptions C35_set_keys_overrides.
+
 (* TicketKeyFromBytes derives the keys SetSessionTicketKeys installs: SHA-512 bytes 16..31 and 32..47. *)
 Theorem C35_keys_same_derivation : forall sha512 c now b bs c',
   set_session_ticket_keys sha512 c now (b :: bs) = Ok c' ->
